@@ -117,10 +117,13 @@ func ParseHeaderDirective(header http.Header) *HeaderDirectives {
 			}
 			hd.CacheControl.value = typeutils.Some(cc)
 		case "Expires":
-			if t, err := time.Parse(http.TimeFormat, value); err == nil {
+			// Accept all three HTTP date forms. An invalid date (such as "0") means
+			// "already expired" (RFC 9111 section 5.3), not "no Expires header".
+			if t, err := http.ParseTime(value); err == nil {
 				hd.Expires.value = typeutils.Some(t)
 			} else {
 				slog.Debug("Error parsing Expires header", "error", err, "value", value)
+				hd.Expires.value = typeutils.Some(time.Unix(0, 0))
 			}
 		}
 	}
